@@ -91,6 +91,15 @@ def r1(p, rep):
             found.append((n, _perm_role(P, n.args[0]), _perm_role(P, n.args[1])))
     found = [x for x in found if x[1] or x[2]]
     if not found:
+        # no composition anywhere: does the merge hand one of the two permutations on as it is?
+        for r in _firing_returns(f):
+            call = r.value.elts[1]
+            if isinstance(call, ast.Call) and norm(call.func).endswith("python.call") and len(call.args) > 1 and isinstance(call.args[1], ast.List) and len(call.args[1].elts) == 2:
+                a1 = call.args[1].elts[1]
+                role = _perm_role(P, a1)
+                if role in ("outer", "inner"):
+                    rep.violation("C05.R1", f"{f.qualname}:compose", f"{f.module.rel}:{r.lineno}", f"two consecutive transposes are merged into one that uses the {role} permutation `{norm(a1)}` as it is: the {'inner' if role == 'outer' else 'outer'} permutation is dropped - transpose(transpose(x, inner), outer) equals transpose(x, [inner[p] for p in outer]) (for SkipTranspose the composing hook is not the one the shared template calls?)")
+                    return
         raise AnalysisError("unrecognised idiom: SkipTranspose does not compose permutations in a recognised form (inner[p] for p in outer / helper(inner, outer) / np.take(inner, outer))")
     for c, ri, ro in found:
         ok = ri == "inner" and ro == "outer"
